@@ -605,8 +605,21 @@ def k_choice_dup(f, rng):
         return None
     src = pick(rng, f.choices[ln])
     dup = dict(src)
+    variant = pick(rng, ["labelled", "labelled", "dup-unlabeled", "dup-image-only", "original-unlabeled"])
+    if variant == "dup-unlabeled":
+        for h in [h for h in dup if h.split(":")[0].strip() in ("label", "image", "audio", "video")]:
+            del dup[h]
+    elif variant == "dup-image-only":
+        for h in [h for h in dup if h.split(":")[0].strip() == "label"]:
+            del dup[h]
+        dup["image"] = "dup.png"
+    elif variant == "original-unlabeled":
+        for h in [h for h in src if h.split(":")[0].strip() == "label"]:
+            del src[h]
     f.choices[ln].insert(rng.randint(f.choices[ln].index(src) + 1, len(f.choices[ln])), dup)
-    return Exp(r"Choice names must be unique for each choice list", "row", choice=dup)
+    e = Exp(r"Choice names must be unique for each choice list", "row", choice=dup)
+    e.column = variant
+    return e
 
 
 @kind("choice-name-with-space-in-select-multiple", 2)
